@@ -11,11 +11,11 @@ RULE = ("(a) placed scenes with PML/periodic/PEC/PMC boundaries, all four source
         "(b) model tie: hand-built complex containers (use_complex_fields, zero Bloch vector) stepped by forward() vs the Coq model, bit-exact")
 ASSUMPTIONS = ["real storage in the implementation corresponds to imaginary part 0 in the pair model"]
 TRUSTED = ["correspondence harness"]
-LEVEL_TEXT = ("Theorem (every PML-free scene of the pair model, any number of steps): with ghost factors of zero imaginary part and real data and "
-              "source injections, imaginary parts stay exactly zero, so the real parts evolve by the same definitions (= the real run). "
-              "Detector outputs and scenes with absorbing layers are decided by the implementation predicate; model tied by exact correspondence on complex containers.")
-LEVEL_NOTE = "PARTIAL: absorbing layers and detector formulas (|.|^2, Re(E x conj H)) are compared on the implementation, not proved."
-TECHNIQUE = "Coq proof (imaginary parts vanish through every ghost read and update) + differential complex-vs-real runs"
+LEVEL_TEXT = ("Theorem (every scene of the pair model incl. any list of CPML layers, any number of steps): with ghost factors of zero imaginary part and real "
+              "data, psi accumulators and source injections, imaginary parts stay exactly zero, so the real parts evolve by the same definitions (= the real run). "
+              "Detector outputs are decided by the implementation predicate; model tied by exact correspondence on complex containers.")
+LEVEL_NOTE = "Detector formulas (|.|^2, Re(E x conj H)) are compared on the implementation, not proved."
+TECHNIQUE = "Coq proof (imaginary parts vanish through every ghost read, the CPML loop and the updates) + differential complex-vs-real runs"
 
 
 def gen_cases(ctx):
